@@ -113,6 +113,15 @@ func (f *Fact) Cancel() {
 }
 func (f *Fact) GetP() *Sub { f.rec("GetP"); return f.P }
 
+// CancelRet cancels the run's context from inside a condition or a right-hand side
+func (f *Fact) CancelRet(k int64) int64 {
+	f.rec("CancelRet", k)
+	if f.h != nil && f.h.cancel != nil {
+		f.h.cancel()
+	}
+	return k
+}
+
 var typeReg = map[string]reflect.Type{
 	"Fact": reflect.TypeOf(Fact{}), "Sub": reflect.TypeOf(Sub{}), "*Sub": reflect.TypeOf(&Sub{}),
 	"int": reflect.TypeOf(int(0)), "int8": reflect.TypeOf(int8(0)), "int16": reflect.TypeOf(int16(0)),
